@@ -66,6 +66,7 @@ type GhostDecl struct {
 }
 
 type MacroDef struct {
+	pkg    string
 	name   string
 	params []string
 	text   string
@@ -179,7 +180,7 @@ func (cs *ContractSet) LoadFile(pkgPath, path string) error {
 			if m == nil {
 				return fmt.Errorf("%s:%d: bad macro", path, ln+1)
 			}
-			md := &MacroDef{name: m[1], text: m[3]}
+			md := &MacroDef{name: m[1], text: m[3], pkg: pkgPath}
 			for _, p := range strings.Split(m[2], ",") {
 				if p = strings.TrimSpace(p); p != "" {
 					md.params = append(md.params, p)
